@@ -66,6 +66,30 @@ def main():
     for f, lc, ln, fc, fn_, bc, bn in rows:
         out.append("| %s | %d / %d (%.0f%%) | %d / %d | %d / %d |" % (f, lc, ln, 100.0 * lc / max(ln, 1), fc, fn_, bc, bn))
     out += ["", "Functions never entered: " + (", ".join(sorted(set(never))) or "none"), ""]
+    # lines never executed, as ranges, for the parser sources (read them to see which behaviours no input reaches)
+    unc = []
+    for f, lc, ln, *_ in rows:
+        if ln == 0 or lc == ln or not f.endswith(".c"):
+            continue
+        sh = subprocess.run(["llvm-cov", "show", "-instr-profile=" + B + "/all.profdata", B + "/corr", "-object", B + "/afail", "/repo/" + f],
+                            capture_output=True, text=True).stdout
+        zero = []
+        for l in sh.splitlines():
+            t = l.split("|")
+            if len(t) >= 3 and t[0].strip().isdigit() and t[1].strip() == "0":
+                zero.append(int(t[0]))
+        rng, st, pv = [], None, None
+        for z in sorted(set(zero)):
+            if st is None:
+                st = pv = z
+            elif z == pv + 1:
+                pv = z
+            else:
+                rng.append((st, pv)); st = pv = z
+        if st is not None:
+            rng.append((st, pv))
+        unc.append("%s: %s" % (f, " ".join("%d-%d" % r_ if r_[0] != r_[1] else str(r_[0]) for r_ in rng)))
+    out += ["", "Lines never executed (ranges):", ""] + ["* " + u for u in unc] + [""]
     open(os.path.join(ROOT, "coverage.md"), "w").write("\n".join(out))
     print("\n".join(out[:8]))
     shutil.rmtree(B, ignore_errors=True)
